@@ -69,7 +69,9 @@ pub fn decode50(mb: u64) -> D50 {
 pub fn plausible50(mb: u64) -> bool {
     let f = f50_of(mb);
     let d = decode50(mb);
-    (f.roll != 0 || f.roll_sign != 0) && f.roll != 0 && f.trk != 0 && f.gs != 0 && f.tar != 0 && f.tas != 0
+    // a signed field is "non-zero" when sign and magnitude are not both zero (sign 1 / magnitude 0 is the
+    // most negative value, e.g. a true track of exactly 180 deg)
+    (f.roll != 0 || f.roll_sign != 0) && (f.trk != 0 || f.trk_sign != 0) && f.gs != 0 && (f.tar != 0 || f.tar_sign != 0) && f.tas != 0
         && d.roll.abs() <= 50.0 && d.gs <= 600 && d.tas <= 500 && (d.gs as i64 - d.tas as i64).abs() < 200
 }
 
@@ -87,7 +89,7 @@ pub fn decode60(mb: u64) -> D60 {
 pub fn plausible60(mb: u64) -> bool {
     let f = f60_of(mb);
     let d = decode60(mb);
-    f.hdg != 0 && f.ias != 0 && f.mach != 0 && f.baro != 0 && f.ivv != 0
+    (f.hdg != 0 || f.hdg_sign != 0) && f.ias != 0 && f.mach != 0 && (f.baro != 0 || f.baro_sign != 0) && (f.ivv != 0 || f.ivv_sign != 0)
         && d.mach <= 1.0 && d.baro_rate.abs() <= 6000 && d.ivv.abs() <= 6000
 }
 
